@@ -64,9 +64,9 @@ class C09(Prop):
                   "specification accepts every output of the writer model (C09_spec_ok_on_model, unconditional) and acceptance means SpecP "
                   "(C09_spec_ok_sound): WriteResults determined by which values fit, each drain yields the first k frames of the payloads "
                   "announced since the previous drain, each frame = LE32(|body|)++body (or body) with |body| <= max, and the bodies of each "
-                  "write parse to its expected message over runs of exactly the values that fit. From any state satisfying Winv no "
+                  "write parse (under delimiter-freeness, wf_msg) to its expected message over runs of exactly the values that fit. From any state satisfying Winv (max < 2^32) no "
                   "operation panics and Winv is preserved (C09_total*); C09_len_bound, C09_framing, C09_drain_yields_committed, "
-                  "C09_point_conservation, C09_message_roundtrip as before. Wiring: address parsing equals the documented scheme table "
+                  "C09_point_conservation (one write call), C09_message_roundtrip (parser reads back every rendered message). Wiring: address parsing equals the documented scheme table "
                   "(C09_addr_*), the builder equals its reference semantics and accepted lengths respect the transport limit, length prefix "
                   "iff unix stream (C09_builder_*), telemetry names are never prefixed, one flush never panics and its output passes the flush specification "
                   "(C09_telemetry_prefix_bypass, C09_flush_total, C09_flush_spec_ok_on_model). The code as found is refuted clause by clause (C09_*_refuted_before_fix*). Models are tied to /repo by "
